@@ -270,17 +270,10 @@ func TestRealChain(t *testing.T) {
 			from := uint64(rapid.IntRange(0, int(c.head)).Draw(t, "from"))
 			to := uint64(rapid.IntRange(int(from), int(c.head)).Draw(t, "to"))
 			wasKept := to >= 2 && c.kept(to-1)
-			ops = append(ops, fmt.Sprintf("node %d: prune [%d,%d)", pn, from, to))
+			ops = append(ops, fmt.Sprintf("node %d:", pn))
 			c.ops = ops
-			ev.Guard(t, text, func() { c.store.PruneState(from, to) })
-			for h := from; h < to; h++ {
-				if h >= 1 {
-					c.pruned[h] = true
-					if to > c.maxTo {
-						c.maxTo = to
-					}
-				}
-			}
+			c.prune(t, from, to)
+			ops = c.ops
 			pruneBelowKept = wasKept && from < to
 			if rapid.Bool().Draw(t, "grow") {
 				// the node keeps running after the prune
